@@ -11,6 +11,11 @@ def classify(rec, verdict):
 
 
 def corrupt(rec, rng):
+    if rec["fn"] == "keygen":
+        if rng.random() < 0.2:
+            rec["reparse_equal"] = False
+            return rec
+        return None
     if rec["fn"] == "keyrel":
         if rec["len"] != len(rec["other"]) and rng.random() < 0.3:
             rec["eq"] = True
